@@ -250,6 +250,30 @@ func c15Jobs() []sjob {
 		}},
 		{"H4-yaml consumer of a published configuration concurrent with the next load", func(x *sx) { c15H4(x, "yaml") }},
 		{"H4-json consumer of a published configuration concurrent with the next load", func(x *sx) { c15H4(x, "json") }},
+		{"H11 two connections logging the same user in (PAP), one with the right and one with a wrong password", func(x *sx) {
+			w := newSWorldR(e.Cfg, nil)
+			w.serve()
+			var r1, r2 [][]byte
+			var wg vsyncrt.WaitGroup
+			wg.Add(2)
+			c1 := w.W.NewConn(1, srvx.Addr4(10, 0, 0, 1, 1001))
+			c2 := w.W.NewConn(2, srvx.Addr4(10, 0, 0, 2, 1002))
+			pap := func(pw string, sid int) []byte {
+				typ, minor, body := rPkt{Kind: "pap", User: "own", Pw: pw}.body()
+				return ref.Packet(ref.Header{Version: 0xc0 | minor, Type: typ, Seq: 1, Session: sidOf(sid)}, key, body)
+			}
+			vsyncrt.Go(func() { sclient(w, c1, [][]byte{pap(e.Sec.Own, 0)}, &r1, true); wg.Done() })
+			vsyncrt.Go(func() { sclient(w, c2, [][]byte{pap("wrong", 0)}, &r2, true); wg.Done() })
+			wg.Wait()
+			w.shutdown()
+			if len(r1) != 1 || replyStatus(key, r1[0], 1) != 1 {
+				x.fail("H11/functional", "the login with the right password was not answered PASS")
+			}
+			if len(r2) != 1 || replyStatus(key, r2[0], 1) != 2 {
+				x.fail("H11/functional", "the login with a wrong password was not answered FAIL")
+			}
+			x.obs = transcriptOf(key, r1) + transcriptOf(key, r2)
+		}},
 		{"H10-yaml the loader's update loop polling a file loader while the watcher loads the next document", func(x *sx) { c15H10(x, "yaml") }},
 		{"H10-json the loader's update loop polling a file loader while the watcher loads the next document", func(x *sx) { c15H10(x, "json") }},
 		{"H5 one connection multiplexing two sessions plus a second connection", func(x *sx) {
@@ -821,10 +845,13 @@ func c09Jobs() []sjob {
 		// scripts 5 and 6 run on a connection of the OTHER scope (other key, other users)
 		{{Kind: "pap", User: "shared", Pw: e.Sec.Shared2}},
 		{{Kind: "ascii", User: ""}, {Kind: "cont", Msg: "elsewhere"}},
+		// scripts 7 and 8 (scope 1 again): the same user logs in with the right and with a wrong password at the same time
+		{{Kind: "pap", User: "own", Pw: e.Sec.Own}},
+		{{Kind: "pap", User: "own", Pw: "wrong"}},
 	}
-	const firstScope2 = 5
+	const firstScope2, firstSameUser = 5, 7
 	keyOf := func(si int) []byte {
-		if si >= firstScope2 {
+		if si >= firstScope2 && si < firstSameUser {
 			return key2
 		}
 		return key
@@ -849,7 +876,7 @@ func c09Jobs() []sjob {
 		for i, si := range idx {
 			i, si := i, si
 			addr := srvx.Addr4(10, 0, 0, byte(1+i), 1900)
-			if si >= firstScope2 {
+			if si >= firstScope2 && si < firstSameUser {
 				addr = srvx.Addr4(192, 168, 0, byte(1+i), 1900)
 			}
 			c := w.W.NewConn(i, addr)
@@ -873,11 +900,14 @@ func c09Jobs() []sjob {
 	for a := range scripts {
 		for b := a; b < len(scripts); b++ {
 			a, b := a, b
-			if a >= firstScope2 && b > a {
+			if a >= firstScope2 && a < firstSameUser && b > a {
 				continue // one pair of the other scope with itself is enough
 			}
+			if (a >= firstSameUser || b >= firstSameUser) && !(a == firstSameUser && b == firstSameUser+1) {
+				continue // the two logins of one user are paired with each other only
+			}
 			what := "sharing a session id"
-			if b >= firstScope2 && a < firstScope2 {
+			if b >= firstScope2 && b < firstSameUser && a < firstScope2 {
 				what = "of two different scopes, sharing a session id"
 			}
 			jobs = append(jobs, sjob{fmt.Sprintf("scripts %d and %d on two concurrent connections %s", a, b, what), func(x *sx) {
@@ -914,6 +944,128 @@ func c09Jobs() []sjob {
 					x.fail("C09/transcript-differs-after-closed-connection", fmt.Sprintf("script %d after an abandoned login on another (closed) connection: transcript %s differs from its transcript alone %s", b, got, alone[b]))
 				}
 				x.obs = "ok"
+			}})
+		}
+	}
+	return jobs
+}
+
+// ---------------- C08 (pipelined packets) ----------------
+
+type c08sState struct {
+	mu   vsyncrt.Mutex
+	log  []string
+	next int
+}
+
+// c08sHandler records which handler instance saw which packet; sessions with an even id get a reply that registers a
+// continuation (a fresh instance), sessions with an odd id a reply that ends the session.
+type c08sHandler struct {
+	st *c08sState
+	id int
+}
+
+func (h c08sHandler) Handle(resp tq.Response, req tq.Request) {
+	st := h.st
+	st.mu.Lock()
+	st.log = append(st.log, fmt.Sprintf("h%d<-%x:%d", h.id, uint32(req.Header.SessionID), req.Header.SeqNo))
+	cont := uint32(req.Header.SessionID)%2 == 0
+	nid := 0
+	if cont {
+		nid = st.next
+		st.next++
+	}
+	st.mu.Unlock()
+	if cont {
+		resp.Next(c08sHandler{st: st, id: nid})
+	}
+	resp.Reply(tq.NewAuthorReply(tq.SetAuthorReplyStatus(tq.AuthorStatusPassAdd)))
+}
+
+// c08SchedJobs: the client PIPELINES its packets - everything is on the wire before the server has answered anything - on a
+// plain and on a single-connect connection. Whatever the server does internally, the packets must be judged one after the
+// other exactly as the connection model judges them: same handler instances in the same order, same replies, nothing after
+// the first rejected packet.
+func c08SchedJobs(quick bool) []sjob {
+	key := []byte("c08-key")
+	type pk struct {
+		sid uint32
+		seq byte
+	}
+	alpha := []pk{{0x0808, 1}, {0x0808, 3}, {0x0808, 2}, {0x0809, 1}, {0x0809, 3}, {0x0808, 5}}
+	var scripts [][]pk
+	var rec func(cur []pk)
+	rec = func(cur []pk) {
+		if len(cur) >= 2 {
+			scripts = append(scripts, append([]pk{}, cur...))
+		}
+		if len(cur) == 3 {
+			return
+		}
+		for _, p := range alpha {
+			rec(append(cur, p))
+		}
+	}
+	rec(nil)
+	var jobs []sjob
+	for _, fl := range []byte{0, 4} {
+		for _, sc := range scripts {
+			fl, sc := fl, sc
+			if quick && fl == 0 && len(sc) == 3 {
+				continue
+			}
+			name := fmt.Sprintf("pipelined packets, flags %#x:", fl)
+			for _, p := range sc {
+				name += fmt.Sprintf(" %x:%d", p.sid, p.seq)
+			}
+			jobs = append(jobs, sjob{name, func(x *sx) {
+				st := &c08sState{next: 1}
+				w := newSWorldL(key, c08sHandler{st: st, id: 0})
+				w.serve()
+				c := w.W.NewConn(0, srvx.Addr4(10, 0, 0, 1, 1808))
+				w.L.Push(c)
+				model := ref.NewConnModel()
+				var wantLog, wantOut []string
+				for _, p := range sc {
+					m := ref.NewMsg()
+					m.N["authen_method"], m.N["priv_lvl"], m.N["authen_type"], m.N["authen_service"] = 6, 1, 1, 1
+					m.S["user"] = []byte("u")
+					m.Args = [][]byte{[]byte("service=shell"), []byte("cmd=show")}
+					body, _ := ref.AuthorRequest.Encode(m)
+					h := ref.Header{Version: 0xc0, Type: 2, Seq: p.seq, Flags: fl, Session: p.sid}
+					c.Feed(ref.Packet(h, key, body))
+					if model.Open {
+						h.Length = uint32(len(body))
+						v := model.Step(h, ref.Action{Reply: true, Next: p.sid%2 == 0})
+						if v.Accept {
+							wantLog = append(wantLog, fmt.Sprintf("h%d<-%x:%d", v.Handler, p.sid, p.seq))
+							if v.ReplySeq > 0 {
+								wantOut = append(wantOut, fmt.Sprintf("%x:%d", p.sid, v.ReplySeq))
+							}
+						}
+					}
+				}
+				vsyncrt.Quiesce()
+				if !c.Closed() {
+					c.FeedEOF()
+				}
+				w.shutdown()
+				out, _ := c.Await(0)
+				pks, rest := srvx.ParseStream(out)
+				var gotOut []string
+				for _, q := range pks {
+					gotOut = append(gotOut, fmt.Sprintf("%x:%d", q.H.Session, q.H.Seq))
+				}
+				st.mu.Lock()
+				gotLog := append([]string{}, st.log...)
+				st.mu.Unlock()
+				if fmt.Sprint(gotLog) != fmt.Sprint(wantLog) {
+					x.fail("C08/pipelined-dispatch", fmt.Sprintf("handler invocations %v, the connection model judging the packets one after the other says %v", gotLog, wantLog))
+				}
+				if fmt.Sprint(gotOut) != fmt.Sprint(wantOut) || len(rest) != 0 {
+					x.fail("C08/pipelined-replies", fmt.Sprintf("replies %v (+%d stray bytes), the model says %v", gotOut, len(rest), wantOut))
+				}
+				x.obs = fmt.Sprint(gotLog)
 			}})
 		}
 	}
@@ -1133,6 +1285,8 @@ func jobsFor(id string, quick bool) []sjob {
 		return c13SchedJobs()
 	case "C03":
 		return c03SchedJobs()
+	case "C08":
+		return c08SchedJobs(quick)
 	}
 	return nil
 }
